@@ -521,7 +521,8 @@ class Renderer:
         return ("{" + before + "let mut %s = %s(%s);\n" % (itv, into, self.rspan(n, n["iter"]))
                 + self.stmt_text("loop", str(k), "after_iter")
                 + self.loop_attrs(k) + "loop" + self.loop_spec(k) + "{" + entry
-                + "match %s.next() { Some(%s) => %s, None => break, }" % (itv, self.t(n["pat"]), self.render_block(body))
+                + "match %s.next() { Some(%s) => %s, None => break, }" % (itv, self.t(n["pat"]), self.render_block(
+                    body, self.stmt_text("loop", str(k), "for_entry"), self.stmt_text("loop", str(k), "for_exit")))
                 + exit_ + "}}")
 
     # -- if: branch anchors
@@ -560,7 +561,18 @@ class Renderer:
             # try_conv <ordinal|*> <function|id> : the From impl selected by the k-th `?` (trait impls are inherent here)
             if d[0] in ("*", str(k)):
                 conv = "" if d[1] == "id" else d[1]
+        rt = self.subst_assoc(self.fn.node.get("ret_ty_text", "")).strip()
+        if rt.startswith("Option<") and not self.in_closure(n):
+            # `?` on an Option in a function returning Option
+            self.log[-1] = "R8 ?->match (Option)"
+            return "(match %s { Some(__v) => __v, None => return None, })" % self.rspan(n, n["expr"])
         return "(match %s { Ok(__v) => __v, Err(__e) => return Err(%s(__e)), })" % (self.rspan(n, n["expr"]), conv)
+
+    def in_closure(self, n):
+        for x in walk_tree(self.fn.node["tree"]):
+            if x["k"] == "Closure" and x["s"] <= n["s"] and n["e"] <= x["e"]:
+                return True
+        return False
 
     def into_iter_fn(self, k):
         # `rw: into_iter <k> plain`: the expression already is an iterator (IntoIterator::into_iter is the identity on iterators)
@@ -581,6 +593,8 @@ class Renderer:
             "useindexmap::map::MutableKeys;": "use indexmap::map::MutableKeys;",
         }
         if txt not in table:
+            if re.match(r"^use(indexmap|std|core|alloc)::", txt):
+                return self.t(n["s"], n["e"])      # resolved against the stub / std as written, or a type error (undecided)
             die("%s: unsupported nested item: %s" % (self.fn.key, txt))
         if table[txt] != self.t(n["s"], n["e"]):
             self.log.append("R15 nested use -> stub path")
@@ -764,7 +778,7 @@ class Renderer:
                 + self.stmt_text("loop", str(k), "after") + " __v }")
 
     # -- whole function
-    def render_fn(self):
+    def render_fn(self, stub_body=False):
         fn, rec, node = self.fn, self.rec, self.fn.node
         sig_a, sig_b = node["sig_span"]
         name = rec.attrs.get("name", node["name"])
@@ -813,6 +827,10 @@ class Renderer:
                     if not txt.endswith(","):
                         txt += ","
                     spec += self.mark(s, txt) + "\n"
+        if stub_body:
+            attrs = "#[verifier::external_body]\n"
+            text = "%spub %s%s%s%s%s\n{ unimplemented!() }" % (attrs, head, params, tail, where, spec)
+            return "/*<fn %s>*/\n%s\n/*</fn %s>*/" % (fn.key, text, fn.key)
         body = self.block_of(node["tree"], node["body"])
         entry = body_pre + self.stmt_text("entry")
         # before_tail: insert before the last statement of the body
@@ -964,7 +982,8 @@ def synth_fn(key, rec, impls, ctx, table, by_mod):
     by_mod.setdefault(mod, []).append((sub, text, False))
 
 
-def generate(outdir):
+def generate(outdir, stub=None):
+    stub = stub or {}
     os.makedirs(outdir, exist_ok=True)
     srcs = run_pqx()
     fns, structs, impls = collect(srcs)
@@ -1003,18 +1022,31 @@ def generate(outdir):
                 die("overlay: skip without reason: " + fn.key)
             continue
         r = Renderer(fn, rec, ctx)
-        text = r.render_fn()
+        try:
+            if fn.key in stub:
+                raise Undecided("does not compile in the verifier's dialect: " + stub[fn.key])
+            text = r.render_fn()
+            for s in rec.sections:
+                if not s.used:
+                    die("overlay: anchor not found in %s: @%s %s (%s)" % (fn.key, s.anchor, " ".join(s.args), s.origin))
+        except Undecided as e:
+            # the function cannot be brought into the verifier's input as it stands: keep its contract for the
+            # callers (assumed), do not verify its body, and make every property it carries UNDECIDED
+            entry["mode"] = mode = "undecided"
+            entry["reason"] = str(e)
+            for k in [c for c, v in ctx.clauses.items() if v["fn"] == fn.key]:
+                del ctx.clauses[k]
+            r = Renderer(fn, rec, ctx)
+            text = r.render_fn(stub_body=True)
         if mode == "assumed":
             entry["reason"] = rec.attrs.get("reason", "")
             text = text.replace("*/\n", "*/\n#[verifier::external_body]\n", 1)
-        for s in rec.sections:
-            if not s.used:
-                die("overlay: anchor not found in %s: @%s %s (%s)" % (fn.key, s.anchor, " ".join(s.args), s.origin))
         entry["rewrites"] = r.log
         entry["nopanic"] = [t.strip() for t in rec.attrs.get("nopanic", "").split(",") if t.strip()]
         entry["sites"] = count_sites(fn.node["tree"])
         entry["gen_name"] = rec.attrs.get("name", fn.name)
         entry["clauses"] = [s.cid for s in rec.sections if s.cid in ctx.clauses]
+        entry["all_tags"] = sorted(set(t for s in rec.sections for t in s.tags) | set(entry["nopanic"]))
         # impl header
         if fn.impl is not None:
             im = fn.impl
